@@ -35,6 +35,8 @@ pub fn collect(cx: &Cx, rep: &mut Report) -> Vec<Collected> {
             // (mode, render n)
             let mut configs: Vec<(CollMode, usize, &str)> = vec![(CollMode::Summary, 2, "2 elements")];
             if r.item_kind == "struct" { configs.push((CollMode::Unrolled(0), 0, "no fields")); configs.push((CollMode::Unrolled(1), 1, "1 field")); }
+            // an enum without variants is a shape of its own whether or not the builder asks for it
+            if r.item_kind == "enum" { configs.push((CollMode::Unrolled(0), 0, "no variants")); }
             if r.variant == "Debug" { configs[0] = (if r.item_kind == "struct" { CollMode::Unrolled(2) } else { CollMode::InnerUnrolled(2) }, 2, "2 elements"); }
             if r.item_kind == "enum" && r.variant == "Default" { configs[0] = (CollMode::Unrolled(2), 2, "2 variants"); configs.push((CollMode::Unrolled(1), 1, "1 variant")); }
             for (mode, n, shape) in configs {
@@ -175,6 +177,36 @@ impl<'ast> Visit<'ast> for Scan {
 
 pub struct HygFinding { pub rule: &'static str, pub inst: String, pub msg: String }
 
+/// TP-signature: the receiver of every generated trait method is the one the trait declares (E0053 / E0186 otherwise)
+pub fn signature_findings(inst: &Instance) -> Vec<(String, String)> {
+    const OPS: [&str; 10] = ["add", "bitand", "bitor", "bitxor", "div", "mul", "rem", "shl", "shr", "sub"];
+    let mut out = Vec::new();
+    for im in find_impls(&inst.file) {
+        if im.trait_.is_none() { continue; }
+        for it in &im.items {
+            let syn::ImplItem::Fn(m) = it else { continue };
+            let name = m.sig.ident.to_string();
+            // expected: None = no receiver; Some((by_ref, mutable))
+            let want: Option<Option<(bool, bool)>> = match name.as_str() {
+                "clone" | "fmt" | "deref" | "eq" | "ne" | "partial_cmp" | "cmp" | "hash" | "lt" | "le" | "gt" | "ge" => Some(Some((true, false))),
+                "clone_from" | "deref_mut" => Some(Some((true, true))),
+                "default" => Some(None),
+                "neg" | "not" => Some(Some((false, false))),
+                n if OPS.contains(&n) => Some(Some((false, false))),
+                n if n.strip_suffix("_assign").map(|b| OPS.contains(&b)).unwrap_or(false) => Some(Some((true, true))),
+                _ => None,
+            };
+            let Some(want) = want else { continue };
+            let got = m.sig.receiver().map(|r| (r.reference.is_some(), r.reference.is_some() && r.mutability.is_some()));
+            if got != want {
+                let show = |x: Option<(bool, bool)>| match x { None => "no receiver".to_string(), Some((false, _)) => "`self`".into(), Some((true, false)) => "`&self`".into(), Some((true, true)) => "`&mut self`".into() };
+                out.push((name.clone(), format!("the generated method `{name}` takes {} where the trait declares {}: the impl does not compile", show(got), show(want))));
+            }
+        }
+    }
+    out
+}
+
 pub fn scan_instance(inst: &Instance) -> Vec<HygFinding> {
     let mut out = Vec::new();
     let mut sc = Scan::default();
@@ -214,6 +246,8 @@ pub fn scan_instance(inst: &Instance) -> Vec<HygFinding> {
         if sc.formatter_params.contains(root) { continue; }
         if seen5.insert(m.clone()) { out.push(HygFinding { rule: "TP-method-syntax", inst: m.clone(), msg: format!("the expansion calls `.{m}(..)` with method syntax on `{root}`: an inherent method or another in-scope trait of that name on the user's type changes what is called (use the absolute `::core::…::{m}(..)` form)") }); }
     }
+    // ---- TP-signature
+    for (name, msg) in signature_findings(inst) { out.push(HygFinding { rule: "TP-signature", inst: name, msg }); }
     // ---- TP-zero-arm-match
     if sc.zero_arm_on_self > 0 { out.push(HygFinding { rule: "TP-zero-arm-match", inst: "match-self-no-arms".into(), msg: "`match self {}` with no arms on a reference: an enum without variants does not compile (E0004)".into() }); }
     // ---- TP-nested-fn-types: a nested fn item cannot mention the outer generics a field type may contain
@@ -276,7 +310,7 @@ pub fn c20(cx: &Cx) -> i32 {
     crate::misc::wcb_rule(cx, &mut rep);
     crate::misc::mentions_param_rule(cx, &mut rep);
     where_rules(cx, &mut rep);
-    let coll = run_hyg(cx, &mut rep, &["TP-parse", "TP-zero-arm-match", "TP-nested-fn-types", "TP-free-fn-self", "TP-binders-generic"]);
+    let coll = run_hyg(cx, &mut rep, &["TP-parse", "TP-zero-arm-match", "TP-nested-fn-types", "TP-free-fn-self", "TP-binders-generic", "TP-signature"]);
     // an unsized last field is accepted without an error of derive_ex's own: the generated code must not need `Sized` of it
     unsized_rules(&coll, &mut rep);
     // generic / lifetime binders with fixed names clash with the user's parameters (E0403 / E0496): the C13 rule restricted to those kinds
@@ -362,7 +396,7 @@ pub fn c12(cx: &Cx) -> i32 {
     crate::misc::mentions_param_rule(cx, &mut rep);
     where_rules(cx, &mut rep);
     // shape rules on all instances incl. zero / one element shapes
-    let coll = run_hyg(cx, &mut rep, &["TP-parse", "TP-zero-arm-match"]);
+    let coll = run_hyg(cx, &mut rep, &["TP-parse", "TP-zero-arm-match", "TP-signature"]);
     let shapes: BTreeSet<String> = coll.iter().map(|c| c.shape.clone()).collect();
     rep.analysed.insert("shapes rendered".into(), json!(shapes));
     rep.floor("distinct shapes rendered", shapes.len(), 5);
